@@ -30,6 +30,6 @@ man={"version":1,
    "source_commits":meta['hook_commits'],"add_only":True},
  "engines":[{"name":"govc","path":"/verif/govc","serves_properties":sorted(claimed),"kind_free_text":"self-built deductive verifier for Go: weakest-precondition style VC generation over go/ssa (x/tools v0.29.0, NaiveForm) with //@ contracts, loop invariants, ghost state; z3 4.8.12 / z3 5.1.0 / cvc5 1.0 raced per obligation"}],
  "checks":checks,"not_applicable":na,
- "notes":"Contract-based deductive verification of the real code; see DESIGN.md. Exit 0 = all claimed obligations discharged; 1 = VIOLATION; 2 = check could not do its job (tree does not type-check, contract mismatch, vacuity)."}
+ "notes":"Contract-based deductive verification of the real code; see DESIGN.md. Exit 0 = all claimed obligations discharged (KNOWN-FINDING lines allowed); 1 = VIOLATION (a claimed obligation fails, or can no longer be established from the current source: the VIOLATION line then ends with no-failing-input-found); 2 = the check could not do its job (tree does not type-check, vacuity guard, solver disagreement)."}
 json.dump(man,open('MANIFEST.json','w'),indent=1)
 print("checks:",sorted(claimed))
